@@ -106,7 +106,8 @@ def _new_sig(case, cap, M_this, M_alt, legacy, rng, replay_sig):
             cap.harness_error = "cannot sign: %s" % e
             sig = None
     base = sig if sig is not None else cap.orig_sig
-    return P.mutate(case.get("form", "ok"), base, rng)
+    shown = case.get("present") or case["cred"]
+    return P.mutate(case.get("form", "ok"), base, rng, P.key_of(shown))
 
 
 def run_handshake_site(case, rng, replay_sig=None):
@@ -372,8 +373,8 @@ def run_dc(case, rng):
     dcform = case.get("dcform", "ok")
     signer = P.key_of(P.OTHER[case["cred"]]) if dcform == "otherkey" else key
     sig = P.sign_msg(signer, cert_sig, tbs)
-    if dcform in ("bitflip", "empty", "short"):
-        sig = P.mutate(dcform, sig, rng)
+    if dcform in ("bitflip", "empty", "short") or dcform.startswith("deg:"):
+        sig = P.mutate(dcform, sig, rng, key)
     dc = DelegatedCredential(cred=cred, algorithm=cert_sig, signature=bytearray(sig))
     spy = P.Spy(dkey)
     L = lab.Lab()
@@ -398,8 +399,8 @@ def run_dc(case, rng):
                 elif cvform == "otherkey":
                     msg.signature = bytearray(P.sign_msg(P.key_of(P.OTHER.get(dckind, "ed25519_other")
                                                          if dckind == "dc_ed25519" else dckind), dc_sig, M))
-                elif cvform in ("bitflip", "empty", "short"):
-                    msg.signature = bytearray(P.mutate(cvform, msg.signature, rng))
+                elif cvform in ("bitflip", "empty", "short") or cvform.startswith("deg:"):
+                    msg.signature = bytearray(P.mutate(cvform, msg.signature, rng, dkey))
             except TypeError as e:
                 cap.harness_error = str(e)
             cap.sent_label = tuple(msg.signatureAlgorithm)
